@@ -495,4 +495,5 @@ def build(ctx):
     ctx.witness_search = lambda: core.run_native(open(os.path.join(os.path.dirname(__file__), 'native', 'c27_replay.py')).read(), {})
     ctx.assume('pymysql InternalError / OperationalError instances carry (errno, message) in .args (as raised by the driver)')
     ctx.assume('MySQL: ROLLBACK (or closing a connection without COMMIT) discards every write made since START TRANSACTION; stored procedures that issue their own START TRANSACTION/COMMIT are outside this contract')
+    ctx.undecided('which exception reaches the retry loop when the body lost its connection (2013) and the ROLLBACK issued by the exit on that dead connection fails too: the exit re-raises the ROLLBACK failure (contract: only-a-failing-commit-or-rollback-escapes), so the retry decision is taken on the driver\'s error for a closed connection (aiomysql, not installed here: expected InterfaceError, which is not retryable) instead of the 2013 error; driver behaviour, not decidable on this tree')
     ctx.undecided('Database.execute_and_fetchall / select_and_fetchall are async generators and are NOT retried at all (rows may already have been yielded); the property is decided for the transaction decorator and the retrying convenience methods')
